@@ -289,6 +289,24 @@ pub fn run(ctx: &mut Ctx, c: &Case) -> (String, String) {
                 }
             })
         }
+        // ---- C14: PrefilterState transitions from an arbitrary state
+        #[cfg(memchr_verif)]
+        "prestate" => {
+            let skips = c.num("skips") as u32;
+            let skipped = c.num("skipped") as u32;
+            let ops: Vec<Option<usize>> = c
+                .str("ops")
+                .split(',')
+                .filter(|s| !s.is_empty())
+                .map(|s| if s == "E" { None } else { Some(s[1..].parse::<usize>().unwrap()) })
+                .collect();
+            let r = catch_unwind(AssertUnwindSafe(|| {
+                let (outs, (a, b)) = memchr::memmem::verif_prefilter_state_sim(skips, skipped, &ops);
+                let o: String = outs.iter().map(|&x| if x { 't' } else { 'f' }).collect();
+                format!("{}|{},{}", o, a, b)
+            }));
+            (r.unwrap_or_else(|_| "Panic".to_string()), "-".to_string())
+        }
         // ---- memmem
         "mm" => {
             let x = c.bytes("x");
